@@ -444,3 +444,45 @@ def check_C15(ctx):
                          slim=lambda c: {"id": c["id"], "hist": c["hist"]})
     for c in cases[:1] + cases[len(cases) // 2: len(cases) // 2 + 1] + cases[-1:]:
         ctx.sample({"id": c["id"], "hist": [(e["op"], e["seq"], e["pos"], e["kind"], e["d"]) for e in c["hist"]], "emitted": [o["o"] for o in c["outops"]]})
+
+
+def check_C16(ctx):
+    ctx.rule = ("design: Traversal.tla transcribes both work-stack loops of ir/traversals.rs over the trees of Builder.tla; TLC checks InOrderIsRecWalk (events = recursive walk) and "
+                "PreOrderVisitsEachOnce on every tree up to the bound; implementation: recording visitors (immutable; mutable with default per-instruction hooks; mutable with some hooks "
+                "overridden) run over every function of fixtures, generated modules and builder-made trees; TLC compares each callback log with the recursive walk of the tree read by plain "
+                "recursion, operands extracted by matching on the instruction. Call-stack independence is observed: nesting depth 10^5 is parsed, traversed by both traversals, GC'd and emitted "
+                "in a thread with a 256 KiB stack inside a child process. A case is one (function, traversal flavour).")
+    q = ctx.quick()
+    L = 3 if q else 4
+    cfg = write_cfg("MC_Traversal_gen", "SPECIFICATION Spec\nCONSTANTS\n  MaxOps = %d\nINVARIANTS\n  InOrderIsRecWalk\n  PreOrderVisitsEachOnce\nCHECK_DEADLOCK FALSE\n" % L)
+    model_check(ctx, "Traversal", cfg=cfg, workers=8, label="design-traversal")
+    hist = os.path.join(ctx.work, "build_histories.txt")
+    cfg = write_cfg("Enum_Builder_gen", "SPECIFICATION Spec\nCONSTANTS\n  MaxOps = %d\nINVARIANTS\n  EmitCase\nCHECK_DEADLOCK FALSE\n" % (2 if q else 3))
+    r = tlc("Builder", cfg=cfg, workers=8, cont=False, capture=("CASE", hist), name="enum-builder")
+    ctx.add_mc(r, "enum-build-histories")
+    n = 250 if q else 6000
+    trace = os.path.join(ctx.work, "traversal.ndjson")
+    out = wv(["trace-traversal", "inputs=fixtures,gen:%d,gen:%d:big" % (n, n // 25), "histories=" + hist, "seed=%d" % ctx.seed, "out=" + trace])
+    ctx.notes["harness"] = out.strip().splitlines()[-1]
+    r, cases = judge_trace(ctx, "Trace_Traversal", trace, slim=lambda c: {"id": c["id"], "source": c["source"], "flavour": c["flavour"]})
+    import collections
+    ctx.notes["cases_by_flavour"] = dict(collections.Counter(c["flavour"] for c in cases))
+    ctx.notes["callbacks_compared"] = sum(len(c["log"]) for c in cases)
+    for c in cases[:1] + cases[-1:]:
+        ctx.sample({"id": c["id"], "flavour": c["flavour"], "log": c["log"][:8]})
+    # call-stack independence: observed in a child process (a stack overflow kills the process)
+    deep = []
+    for depth in ([1000, 100000] if q else [1000, 100000, 400000]):
+        try:
+            o = wv(["deep", "depth=%d" % depth, "stack=256"], timeout=600, check=False)
+            line = [l for l in o.splitlines() if l.startswith("{")]
+            res = json.loads(line[-1]) if line else {"depth": depth, "outcome": "child process died: " + o.strip()[-200:]}
+        except ToolError as e:
+            res = {"depth": depth, "outcome": "timeout"}
+        deep.append(res)
+        ctx.evaluations += 1
+        want = depth + 1 + depth // 3
+        if res.get("outcome") != "ok" or res.get("starts") != want or res.get("mut_starts") != want:
+            ctx.report("deep-nesting-%d" % depth, "deep-nesting-not-traversed-on-small-stack", res, {"source": "deep:%d" % depth})
+    ctx.notes["deep_nesting"] = deep
+    ctx.assumptions += ["stack-depth independence has no TLA+ counterpart beyond 'the transcribed algorithms have no recursion'; it is measured (256 KiB stack, depth 10^5)"]
